@@ -5,7 +5,7 @@ From Flodym Require Export Base.ND Base.Env Np.Einsum Np.Index Model.Dims Model.
 Local Open Scope nat_scope.
 
 Definition rowQ := row Qc.
-Definition current_dup_after_filter : bool := false.
+Definition current_dup_after_filter : bool := true.
 Definition current_width : nat := 0.
 
 Definition importQ := import_rows Qc QO current_dup_after_filter current_width.
